@@ -258,7 +258,17 @@ class Interp:
             return snot(r)
         return not self.truth(r)
 
+    @staticmethod
+    def _sym_inside(x):
+        """a tuple / frozenset key that holds a symbolic value: hashing it would compare object identities"""
+        if isinstance(x, (tuple, frozenset)):
+            return any(is_sym(y) or isinstance(y, SymObject) or Interp._sym_inside(y) for y in x)
+        return False
+
     def contains(self, container, item):
+        if isinstance(container, (dict, set, frozenset)) and (
+                self._sym_inside(item) or any(self._sym_inside(k) for k in container)):
+            raise Inapplicable("membership of a key built from symbolic values in a hash container")
         if isinstance(container, SStr):
             return container.contains(item)
         if isinstance(container, str) and isinstance(item, SStr):
@@ -1213,6 +1223,8 @@ class Interp:
                     raise KeyError(k)
                 raise Inapplicable("symbolic string key")
             k = c
+        if isinstance(o, dict) and (self._sym_inside(k) or any(self._sym_inside(key) for key in o)):
+            raise Inapplicable("dict lookup with a key built from symbolic values")
         return o[k]
 
     def setitem(self, o, k, v):
@@ -1221,6 +1233,8 @@ class Interp:
         f = self.repo_dunder(o, "__setitem__")
         if f is not None:
             return self.call_function(f, (o, k, v), {})
+        if isinstance(o, dict) and (self._sym_inside(k) or ((is_sym(k) and not (isinstance(k, SStr) and k.concrete() is not None)))):
+            raise Inapplicable("dict store under a key built from symbolic values")
         o[k] = v
 
     def e_Subscript(self, e, frame):
